@@ -154,7 +154,7 @@ def render(c, chains, pi_group, po_group, pats, clk, rng):
             t.append(f'   Call "allclock_launch" {{ "_pi"={pi_str(pat, pat["pulse"])}; }}')
             t.append(f'   Call "allclock_capture" {{ "_pi"={pi_str(pat, pat["pulse"])}; "_po"={po}; }}')
         else:
-            t.append(f'   Call "multiclock_capture" {{ "_pi"={pi_str(pat, False)}; "_po"={po}; }}')
+            t.append(f'   Call "multiclock_capture" {{ "_pi"={pi_str(pat, pat["pulse"])}; "_po"={po}; }}')
     t.append('   "end": Call "load_unload" { ' + ' '.join(f'"{ch["so"].name}"={unload_str(ch, pats[-1])};' for ch in chains) + ' }')
     t.append('}')
     return '\n'.join(t) + '\n'
@@ -191,7 +191,7 @@ def check(c, chains, pi_group, po_group, pats, ffs, clk, text):
                 want[pos[n.name], p] = pat['pi'][n.name]
         mask = np.ones_like(want, dtype=bool)
         for p, pat in enumerate(pats):
-            if pat['loc'] and pat['pulse']:
+            if pat['pulse']:
                 mask[pos[clk.name], p] = False       # a clock pulse character is not a logic value; not constrained here
         if t.shape != want.shape:
             out.append(('tests:shape', f'{t.shape} != {want.shape}'))
@@ -227,9 +227,7 @@ def check(c, chains, pi_group, po_group, pats, ffs, clk, text):
                 assign[pos[f.name]] = A.val_of(pat['state'][f.name], 4)
             for n in pi_group:
                 v = pat['pi'][n.name]
-                assign[pos[n.name]] = A.val_of(ZERO if (n is clk and pat['loc'] and pat['pulse']) else v, 4)
-            if any(n is clk for n in pi_group) and pat['loc'] and pat['pulse']:
-                continue        # the clock port carries a pulse character; the next-state oracle below needs plain values
+                assign[pos[n.name]] = A.val_of(ZERO if n is clk else v, 4)     # the clock port drives no logic in these circuits
             cap = evaln.evalN(c, assign, 4)
             for f in ffs:
                 nxt = A.code_of(cap[pos[f.name]]) & 3 if pos[f.name] in cap else ZERO
